@@ -1599,4 +1599,4 @@ mod tests {
 
 #[cfg(kani)]
 #[path = "/verif/harness/may/sync_spsc.rs"]
-mod verif_kani;
+pub(crate) mod verif_kani;
